@@ -51,6 +51,9 @@ def inject(rng, t, labels, hidden_ok=True, keypool=None):
                 continue
             if isinstance(m, dict) and rng.random() < 0.3 and len(p) > 0 and not any(k in c for k in m):
                 c.update(m)      # marker key directly in an existing map
+                if rng.random() < 0.4:
+                    c[rng.choice(['#', '!important', '', ' lead', '"q', '#c', '!'])] = 'low-sorting sibling'
+                    labels.add('marker:with-low-sorting-sibling')
             else:
                 c[rng.choice(free)] = m
         else:
@@ -144,6 +147,11 @@ def fixed_cases(tier):
             else:
                 b['m']['d'] = {'e': [v]}
             out.append({'layers': [b], 'labels': ['fixed'], 'mode': 'marker', 'file': True})
+    for m in PASSIVE_KEYS:
+        for low in ('#', '!important', '', ' lead'):
+            b = clone(B)
+            b['k'] = dict(clone(m), **{low: 'x'})
+            out.append({'layers': [b], 'labels': ['fixed', 'marker:with-low-sorting-sibling'], 'mode': 'marker', 'file': False})
     for m in PASSIVE_KEYS + ACTIVE_KEYS:
         b = clone(B)
         b['k'] = clone(m)
